@@ -113,7 +113,10 @@ class DtypeFlow:
                 env[x.arg] = frozenset([FLOAT])
             elif ct in ('int', 'long', 'Py_ssize_t', 'np.int64_t', 'int64_t'):
                 env[x.arg] = frozenset([INT])
+        self.last = None
         self.final = self.block(fn.body, env)
+        if self.final is None:
+            self.final = self.last or {}
 
     # ---------------------------------------------------------------- dtype expressions
     def dtype_expr(self, e, env):
@@ -203,6 +206,8 @@ class DtypeFlow:
         f = norm(e.func)
         kw = {k.arg: k.value for k in e.keywords if k.arg}
         args = list(e.args)
+        for a in args + list(kw.values()):      # every argument is evaluated (and its names recorded) whatever the callee
+            self.ev(a.value if isinstance(a, ast.Starred) else a, env)
         if f in self.calls:
             s = self.calls[f]
             return frozenset(s([self.ev(a, env) for a in args]) if callable(s) else s)
@@ -298,12 +303,19 @@ class DtypeFlow:
 
     # ---------------------------------------------------------------- statements
     def block(self, body, env):
+        """state after the block, or None when the block cannot fall through (it ends in return / raise on every path)"""
         for s in body:
+            if env is None:
+                break
             env = self.stmt(s, env)
         return env
 
     @staticmethod
     def join(a, b):
+        if a is None:
+            return b
+        if b is None:
+            return a
         out = dict(a)
         for k, v in b.items():
             out[k] = out.get(k, frozenset()) | v
@@ -352,22 +364,24 @@ class DtypeFlow:
         if isinstance(s, ast.Return):
             if s.value is not None:
                 self.returns.append((s, self.ev(s.value, env)))
-            return env
+            self.last = env
+            return None
+        if isinstance(s, ast.Raise):
+            return None
         if isinstance(s, ast.Expr):
             self.ev(s.value, env)
             return env
         if isinstance(s, ast.If):
             self.ev(s.test, env)
-            return self.join(self.block(s.body, env), self.block(s.orelse, env))
+            return self.join(self.block(s.body, dict(env)), self.block(s.orelse, dict(env)))
         if isinstance(s, (ast.For, ast.While)):
             if isinstance(s, ast.For):
                 it = self.ev(s.iter, env)
                 self.bind(s.target, it, env, s)
-            e1 = self.join(env, self.block(s.body, env))
+            e1 = self.join(env, self.block(s.body, dict(env)))
             if isinstance(s, ast.For):
                 self.bind(s.target, self.ev(s.iter, e1), e1, s)
-            n_st = len(self.stores)
-            e2 = self.join(e1, self.block(s.body, e1))
+            e2 = self.join(e1, self.block(s.body, dict(e1)))
             # the second walk re-records the same sites with the joined state: keep the later (wider) record per node
             seen = {}
             for st in self.stores:
@@ -377,11 +391,11 @@ class DtypeFlow:
         if isinstance(s, ast.With):
             return self.block(s.body, env)
         if isinstance(s, ast.Try):
-            e1 = self.block(s.body, env)
-            out = self.block(s.orelse, e1) if s.orelse else e1
+            e1 = self.block(s.body, dict(env))
+            out = self.block(s.orelse, e1) if (s.orelse and e1 is not None) else e1
             for h in s.handlers:
-                out = self.join(out, self.block(h.body, self.join(env, e1)))
-            return self.block(s.finalbody, out) if s.finalbody else out
+                out = self.join(out, self.block(h.body, dict(self.join(env, e1))))
+            return self.block(s.finalbody, out) if (s.finalbody and out is not None) else out
         return env
 
 
